@@ -177,6 +177,12 @@ class Check(core.CheckBase):
                 index += 1
                 if self.mine(index):
                     yield {'kind': 'stream', 'layer': layer, 'rng': 'C04/%s/%s/%d' % (self.seed, layer, number)}
+            # every kind of unit of the layer once in a stream where something follows it, delivered whole and in big pieces:
+            # a unit is cut off at its own end whatever is already in the buffer behind it
+            for number in range(3):
+                index += 1
+                if self.mine(index):
+                    yield {'kind': 'stream', 'layer': layer, 'rng': 'C04/%s/%s/all-%d' % (self.seed, layer, number), 'all': number + 1}
         for number in range(STREAMS[self.tier]):
             index += 1
             if self.mine(index):
@@ -330,7 +336,19 @@ class Check(core.CheckBase):
             pool = self.records_of(name)
         cls = self.classes[name]
         records = [rng.choice(pool) for _ in range(rng.randrange(1, 9))]
-        if sum(len(r) for r in records) > 300000:
+        if case.get('all'):
+            if case['layer'] != 'tls-handshake':
+                pool = [r for n in names for r in self.records_of(n)] if all(
+                    self.classes[n] is cls or issubclass(self.classes[n], cls) for n in names) else pool
+            records, total = [], 0
+            for record in sorted(set(pool), key=lambda r: (len(r), r)):
+                if total + 2 * len(record) > 400000:
+                    break
+                records.append(record)
+                total += len(record)
+            rng.shuffle(records)
+            records = records + records[:1]       # the first kind is followed by something, the last one too
+        if sum(len(r) for r in records) > 300000 and not case.get('all'):
             records = records[:2]
         stream = b''.join(records)
         boundaries = []
@@ -339,6 +357,10 @@ class Check(core.CheckBase):
             total += len(record)
             boundaries.append(total)
         chunks = list(self.chunks(stream, rng))
+        if case.get('all'):
+            size = {1: len(stream), 2: 4096, 3: 257}[case['all']]
+            chunks = [stream[position:position + size] for position in range(0, len(stream), size)]
+            self.stats['streams_with_every_unit'] += 1
         self.stats['streams'] += 1
         self.stats['chunks_delivered'] += len(chunks)
         self.observe((case['layer'], case['rng']), len(chunks) >= 2,
